@@ -22,15 +22,23 @@ def width_forms(v):
     return out
 
 
-def decoder_total(ctx, rule, inst, o, inp, allowed, site=None):
-    """The decoder must accept every output of the encoder: the conditions on its returning path
-    that mention the input may only be the listed width/range/type checks."""
+def decoder_total(ctx, rule, inst, o, inp, allowed, site=None, outs=()):
+    """The decoder must accept every output of the encoder: a condition on its accepting path that
+    mentions the input may only be one of the listed range/type checks, a width check (any
+    comparison with len(input); exactness is the -width rule's business), or a mere branch (the
+    sibling path with the condition negated accepts as well)."""
     extra = []
-    for (t, p, _) in o.state.pc:
+    mine = [(t, p) for (t, p, _) in o.state.pc]
+    accepting = [[(t, p) for (t, p, _) in x.state.pc] for x in outs if x.kind == "return" and x is not o]
+    for i, (t, p) in enumerate(mine):
         if not any(x == inp for x in subterms(t)):
             continue
         if (t, p) in allowed or is_app(t, "isinstance"):
             continue
+        if is_app(t, "Eq", "NotEq", "Lt", "LtE", "Gt", "GtE") and any(is_app(a, "len") for a in t.args):
+            continue                          # a length condition (of the input or of an intermediate encoding)
+        if any(pc[:i] == mine[:i] and len(pc) > i and pc[i] == (t, not p) for pc in accepting):
+            continue                          # a branch, not a rejection
         extra.append(show(t, maxdepth=4) + "=" + str(p))
     ctx.ob(rule, inst, not extra, "accepts every encoding the encoder produces (only width/range/type conditions on the accepting path)" if not extra else
            "the decoder also requires %s: some valid encodings are refused, so it is not the inverse of the encoder" % extra, site)
@@ -123,7 +131,7 @@ def integer_group(ctx, world, ev):
                        (mk_app("LtE", (Const(0), i_)), True), (mk_app("Lt", (i_, mod_sym)), True), (mk_app("GtE", (i_, Const(0))), True),
                        (mk_app("GtE", (i_, mod_sym)), False), (mk_app("Lt", (i_, Const(0))), False),
                        (App("And", (mk_app("LtE", (Const(0), i_)), mk_app("Lt", (i_, mod_sym)))), True)}
-            decoder_total(ctx, "K2-total", "%s.%s" % (gname, meth_dec), o, b, allowed, (g.cls.mod.relpath, 0, meth_dec))
+            decoder_total(ctx, "K2-total", "%s.%s" % (gname, meth_dec), o, b, allowed, (g.cls.mod.relpath, 0, meth_dec), outs)
     # elements
     base = f.get("Base")
     e = ev.new_obj(base.cls, st)
@@ -154,7 +162,7 @@ def integer_group(ctx, world, ev):
                          ("LtE", (i_, p)), ("Eq", (mk_app("pow", (i_, q, p)), Const(1))), ("NotEq", (mk_app("pow", (i_, q, p)), Const(1)))):
             allowed.add((mk_app(op, args), True))
             allowed.add((mk_app(op, args), False))
-        decoder_total(ctx, "K3-total", "%s bytes_to_element" % gname, o, b, allowed)
+        decoder_total(ctx, "K3-total", "%s bytes_to_element" % gname, o, b, allowed, None, outs)
         ok = has_eq(conds_of(o), mk_app("len", (b,)), wf)
         ctx.ob("K3-width", "%s bytes_to_element" % gname, ok, "decoder accepts exactly element_size_bytes bytes (C05 D1)" if ok else
                "decoder does not enforce the element width: not the inverse of the encoder")
@@ -196,7 +204,7 @@ def ed25519(ctx, world, ev):
         i_ = mk_app("be2int", (mk_app("rev", (s,)),))
         allowed = {(mk_app("Eq", (mk_app("len", (s,)), Const(32))), True), (mk_app("NotEq", (mk_app("len", (s,)), Const(32))), False),
                    (mk_app("Lt", (i_, L)), True), (mk_app("GtE", (i_, L)), False), (mk_app("LtE", (Const(0), i_)), True)}
-        decoder_total(ctx, "K4-total", "Ed25519 bytes_to_scalar", o, s, allowed, o.site)
+        decoder_total(ctx, "K4-total", "Ed25519 bytes_to_scalar", o, s, allowed, o.site, outs)
     # ---- points: encoder on an element with symbolic *affine* coordinates
     st = world.static.fork()
     cf = [k for k, v in st.heap[base.oid].items() if isinstance(v, TupleV) and len(v.items) == 4]
@@ -258,12 +266,16 @@ def ed25519(ctx, world, ev):
         x0 = x.args[1] if flip else x
         conds = conds_of(o)
         le32 = mk_app("be2int", (mk_app("rev", (mk_app("slice", (b, Const(None), Const(32), Const(None))),)),))
-        par = mk_app("bool", (mk_app("BitAnd", (x0, Const(1))),))
+        pars = [mk_app("bool", (mk_app("BitAnd", (x0, Const(1))),)), mk_app("BitAnd", (x0, Const(1))), mk_app("Mod", (x0, Const(2)))]
         differs = same = False
+        sign_terms = []
         for e in (le, le32):       # (the width of the input is K5-width's / C05 D1's business)
-            sign = mk_app("bool", (mk_app("BitAnd", (e, bit)),))
-            differs = differs or (mk_app("NotEq", (sign, par)), True) in conds or (mk_app("Eq", (sign, par)), False) in conds
-            same = same or (mk_app("NotEq", (sign, par)), False) in conds or (mk_app("Eq", (sign, par)), True) in conds
+            sign_terms += [mk_app("bool", (mk_app("BitAnd", (e, bit)),)), mk_app("RShift", (e, Const(255))),
+                           mk_app("BitAnd", (mk_app("RShift", (e, Const(255))), Const(1)))]
+        for sign in sign_terms:    # accepted spellings of "bit 255 of the little-endian integer" / "parity of the root"
+            for par in pars:
+                differs = differs or (mk_app("NotEq", (sign, par)), True) in conds or (mk_app("Eq", (sign, par)), False) in conds
+                same = same or (mk_app("NotEq", (sign, par)), False) in conds or (mk_app("Eq", (sign, par)), True) in conds
         ok = (flip and differs) or (not flip and same)
         nf += 1
         ctx.ob("K5-decoder", "Ed25519 decode path (%s)" % ("x = Q - root" if flip else "x = root"), ok,
@@ -287,8 +299,8 @@ def ed25519(ctx, world, ev):
                 continue
             if is_app(t, "Eq", "NotEq") and (b in t.args or any(is_app(a, "len") for a in t.args)):
                 continue                      # identity encoding / width
-            if is_app(t, "Eq", "NotEq") and any(is_app(a, "bool") for a in t.args):
-                continue                      # sign rule
+            if any(x_ in sign_terms for x_ in subterms(t)):
+                continue                      # sign rule (bit 255 of the input)
             if is_app(t, "Eq", "NotEq") and (Const(0) in t.args or Const(Q) in t.args):
                 continue                      # x == 0 / x == Q / on-curve polynomial == 0
             if is_app(t, "Lt", "LtE", "Gt", "GtE") and ycoord_ in t.args and (Const(Q) in t.args or Const(Q - 1) in t.args):
